@@ -79,7 +79,7 @@ class Expiration(Stream):
         """renewals of leases the previous observation shows irrevocable / absent, or registered non-renewable, must be
         refused; a lazily revoked secret must end revoked at the backend or irrevocable (when the strategy is live)"""
         out = []
-        irrevocable, stored, nonrenewable, expired = set(), set(), set(), set()
+        irrevocable, stored, nonrenewable, expired, batch = set(), set(), set(), set(), set()
         frozen = False
         for op, impl in zip(ops, impls):
             f = op.split("\t")
@@ -89,12 +89,19 @@ class Expiration(Stream):
                     out.append({"what": "irrevocable lease %s was renewed" % f[1], "signature": "C05b:irrevocable-renewed", "op": op})
                 elif f[1] not in stored:
                     out.append({"what": "lease %s absent from storage was renewed" % f[1], "signature": "C05b:absent-renewed", "op": op})
+                elif f[1] in nonrenewable and f[1] in batch:
+                    out.append({"what": "non-renewable secret lease %s, issued to a batch token, was renewed" % f[1],
+                                "signature": "F64:batch-token-lease-nonrenewable-renewed", "op": op})
                 elif f[1] in nonrenewable:
                     out.append({"what": "non-renewable lease %s was renewed" % f[1], "signature": "C05b:nonrenewable-renewed", "op": op})
                 elif f[1] in expired:
                     out.append({"what": "expired lease %s was renewed" % f[1], "signature": "C05b:expired-renewed", "op": op})
             if f[0] == "reg" and res.startswith("ok:") and f[4] == "0":
                 nonrenewable.add(res.split(":")[1])
+            if f[0] == "batchreg" and res.startswith("ok:"):
+                batch.add(res.split(":")[1])
+                if f[3] == "0":
+                    nonrenewable.add(res.split(":")[1])
             if f[0] == "tokcreate" and res.startswith("ok:") and f[3] == "0":
                 nonrenewable.add(res.split(":")[1])
             if f[0] == "rootcreate" and res.startswith("ok:"):
